@@ -71,6 +71,7 @@ pub fn generate(out: &mut Out, prop: &str, thorough: bool, seed: u64) {
         "C06" => client::gen_c06(out, &mut rng, thorough),
         "C07" => {
             server::gen_c07(out, &mut rng, thorough);
+            server::gen_c07_write_faults(out, &mut rng, thorough);
             netgen::gen_serial_server(out, &mut rng, if thorough { 200 } else { 12 })
         }
         "C08" => {
@@ -88,6 +89,8 @@ pub fn generate(out: &mut Out, prop: &str, thorough: bool, seed: u64) {
         "C14" => {
             server::gen_c14(out, &mut rng, thorough);
             server::gen_c14_noise_bursts(out, &mut rng, thorough);
+            server::gen_c14_junk_runs(out, &mut rng, thorough);
+            server::gen_c07_write_faults(out, &mut rng, thorough);
             netgen::gen_c14_accept(out, &mut rng, thorough);
             // the serial RTU server's loop: a reply that cannot be written ends it with that error
             netgen::gen_serial_server(out, &mut rng, if thorough { 120 } else { 12 })
@@ -219,6 +222,11 @@ fn judge(out: &mut Out, l: &str, r: &str) {
         "C06" => client::mon_c06(out, &l, &r),
         "C07" => {
             server::mon_c07(out, &l, &r);
+            // (write faults: which reply meets the fault, and that nothing is served or written
+            // twice after it, is C14's oracle)
+            if l.starts_with("srv ") && l.contains(" wf=1") {
+                server::mon_c14(out, &l, &r);
+            }
             netgen::mon_c18(out, &l, &r)
         }
         "C08" => {
